@@ -22,6 +22,8 @@ func checkC16(p *Prog, r *Report) {
 	ruleC16ExecFile(p, a, r)
 	ruleC16TokenPos(p, a, r)
 	ruleC16Newline(p, a, r)
+	ruleC16ArgPos(p, a, r)
+	ruleC16Foreign(p, a, r)
 }
 
 // R-C16-EXECFILE: the constructor of execution errors names the template the reported token belongs to.
